@@ -62,6 +62,15 @@ class Concretizer:
             else:
                 self.strings[a.idx] = f"invalid:{k}"
             k += 1
+        # classes decided to differ only in ASCII case: the second becomes a case variant of the first
+        for x, y in getattr(ctx, "case_variants", []):
+            rx, ry = ctx.find(x), ctx.find(y)
+            if rx is ry or rx.idx not in self.strings: continue
+            if ry.text is not None:
+                if rx.text is None: rx, ry = ry, rx
+                else: continue
+            base = self.strings[rx.idx]
+            self.strings[ry.idx] = base.upper() if base.upper() != base else base.lower()
 
     def string(self, s):
         if isinstance(s, str): return s
